@@ -10,19 +10,20 @@ import (
 // C04 - published active list covers every semi-sync acker and matches the ack count.
 type orC04 struct {
 	baseOracle
-	atEnter      map[string][2]bool // per incarnation: (a),(b) when its current Manager iteration began (valid flag in third map)
-	judged       map[string]bool
-	lastMut      string
-	lastOp       string // most recent mysync operation (classified)
-	curA, curB   bool
-	flipA, flipB string // operation that turned (a)/(b) from true to false (cleared when true again)
-	flipAHost    string
-	prevList     []string
-	notReplSince map[string]time.Duration
-	backlogAt    map[string]time.Duration // per host: last instant with a large download backlog
-	firstEval    map[string]time.Duration // per host: start of the first membership evaluation while it was not replicating
-	evalCount    map[string]int
-	evalInc      string
+	atEnter       map[string][2]bool // per incarnation: (a),(b) when its current Manager iteration began (valid flag in third map)
+	judged        map[string]bool
+	lastMut       string
+	lastOp        string // most recent mysync operation (classified)
+	curA, curB    bool
+	flipA, flipB  string // operation that turned (a)/(b) from true to false (cleared when true again)
+	flipAHost     string
+	prevList      []string
+	notReplSince  map[string]time.Duration
+	backlogAt     map[string]time.Duration // per host: last instant with a large download backlog
+	divergedSince map[string]time.Duration // per host: since when it has executed transactions the master lacks
+	firstEval     map[string]time.Duration // per host: start of the first membership evaluation while it was not replicating
+	evalCount     map[string]int
+	evalInc       string
 }
 
 func (o *orC04) name() string { return "C04" }
@@ -102,6 +103,26 @@ func (o *orC04) trackRepl() {
 		if !sv.Registered || sv.Name == m.master {
 			delete(o.notReplSince, sv.Name)
 			continue
+		}
+		// diverged (executed transactions, not of the master's uuid, which the master lacks): since when
+		if mst := s.mysql.servers[m.master]; mst != nil && m.primary["C04"] && sv.Up {
+			div := false
+			if !sv.Executed.SubsetOf(mst.Holds()) {
+				for _, g := range sv.Executed.Minus(mst.Holds()) {
+					if g.UUID != mst.UUID {
+						div = true
+						break
+					}
+				}
+			}
+			if o.divergedSince == nil {
+				o.divergedSince = map[string]time.Duration{}
+			}
+			if !div {
+				delete(o.divergedSince, sv.Name)
+			} else if _, ok := o.divergedSince[sv.Name]; !ok {
+				o.divergedSince[sv.Name] = s.now()
+			}
 		}
 		// download backlog (what the master has and the replica has not received), in bytes
 		if mst := s.mysql.servers[m.master]; mst != nil && m.primary["C04"] && sv.Up && sv.HasChannel {
@@ -222,7 +243,7 @@ func (o *orC04) checkPublished(e *ZKEvent) {
 				probed = true
 			}
 		}
-		if sv.Up && sv.lastWorldChange < it.startT && probed {
+		if since, div := o.divergedSince[h]; sv.Up && sv.lastWorldChange < it.startT && probed && div && since < it.startT {
 			for _, g := range sv.Executed.Minus(mst.Holds()) {
 				if g.UUID != mst.UUID {
 					m.violate("C04", "member_diverged", "diverged-replica-in-active-list", fmt.Sprintf("%s published %s although %s holds %s which master %s lacks", e.Inc, e.Data, h, g, mst.Name))
@@ -369,6 +390,10 @@ func (o *orC04) onIterLeave(it *iterRec) {
 				culprit = "replica-acks-before-published"
 			case "publish-active-nodes":
 				culprit = "published-list-omits-semisync-replica:" + kind
+				if o.onlyStaleEffective() {
+					// the replica's variable is off, only its running IO thread still acknowledges
+					culprit = "replica-keeps-acking-after-variable-switched-off:" + kind
+				}
 			}
 			m.violate("C04", "a_destroyed", culprit, fmt.Sprintf("%s %s iteration: (a) held before it, after it: %s", it.inc, kind, det))
 		}
